@@ -24,6 +24,8 @@ def main() -> int:
     ap.add_argument("--no-shard", action="store_true")
     args = ap.parse_args()
 
+    # gRPC's at-fork handlers can dead-lock a fork()+exec() issued while server threads run
+    os.environ.setdefault("GRPC_ENABLE_FORK_SUPPORT", "0")
     if os.environ.get("PYTHONHASHSEED") != "0":
         os.environ["PYTHONHASHSEED"] = "0"
         os.execv(sys.executable, [sys.executable, "-m", "vf.cli"] + sys.argv[1:])
